@@ -216,6 +216,25 @@ def denseExpand (a : List Nat) (sizes : List Int) : Except Err (List Nat) :=
   | _, .error e => .error e
   | none, _ => .error .index
 
+/-- `solve` after notes/C19_fix_4.diff: `is_square`, then the full `_matmul_broadcast_shape` guard
+(the same code as `inv_quad`'s guard). -/
+def solveGuardFixed (a b : List Nat) : Except Err (List Nat) := invQuadGuard a b
+
+/-- the batch-target check added to `expand` by notes/C19_fix_5.diff, on reversed lists
+(old batch shape, requested batch sizes). -/
+def expandBatchOkRev : List Nat → List Int → Bool
+  | [], ts => ts.all (fun t => decide (0 ≤ t))
+  | _ :: _, [] => false
+  | o :: os, t :: ts =>
+    (decide (t = -1) || (decide (0 ≤ t) && (decide (t = (o : Int)) || decide (o = 1)))) && expandBatchOkRev os ts
+
+/-- `expand` after notes/C19_fix_5.diff. -/
+def expandGuardFixed (a : List Nat) (sizes : List Int) : Except Err (List Int) :=
+  match split2 a, expandGuard a sizes with
+  | some (A, _, _), .ok batch => if expandBatchOkRev A.reverse batch.reverse then .ok batch else .error .shape
+  | _, .error e => .error e
+  | none, _ => .error .index
+
 /-- Cat `_check_args` (debug only): ≥ 2 operators, same rank, equal with the cat dim deleted. -/
 def catCheckArgs (shapes : List (List Nat)) (dim : Nat) : Except Err Unit :=
   match shapes with
